@@ -6,7 +6,7 @@
    Only statements closed by `exact`. *)
 From Coq Require Import List.
 From AQ Require Import Feed.FeedLTS Feed.FeedProofs Feed.FeedInvA Feed.FeedInvB Feed.FeedExact Feed.FeedOrder Feed.FeedRecv Feed.FeedStuck.
-From AQ Require Import Feed.MuxLTS Feed.MuxProofs Feed.MuxExact.
+From AQ Require Import Feed.MuxLTS Feed.MuxProofs Feed.MuxExact Feed.MuxPath.
 Import ListNotations.
 
 (* exactly_once: on every path of the LTS, a Send that has completed (put the sendLock token back;
@@ -140,6 +140,16 @@ Theorem C19_mux_exactly_once : forall st p s, mreachable st -> ppcs st p = PDone
   (In s (snap st p) -> sstat st s = UCreated -> created st s <= ptime st p -> mcount p s (mlog st) = 1).
 Proof. exact mux_exactly_once. Qed.
 Print Assumptions C19_mux_exactly_once.
+
+(* ... the same on paths: a subscription added to type t before Post p of type t was called, and neither
+   deleted (Unsubscribe's del) nor closed (closewait of Unsubscribe / Stop, or a Stop completing) before the
+   Post returned, received the event exactly once *)
+Theorem C19_mux_exactly_once_path : forall t1 s t t2 p t3 t4 st,
+  mrun minit (t1 ++ MSubAdd s t :: t2 ++ MPostCall p t :: t3 ++ MPostRet p :: t4) = Some st ->
+  (forall l, In l (t2 ++ t3) -> l <> MDel s t /\ l <> MStopEnd /\ l <> MClosing s /\ l <> MSubStopped s) ->
+  mcount p s (mlog st) = 1.
+Proof. exact mux_exactly_once_path. Qed.
+Print Assumptions C19_mux_exactly_once_path.
 
 Theorem C19_mux_at_most_once : forall st p s, mreachable st -> mcount p s (mlog st) <= 1.
 Proof. exact mux_at_most_once. Qed.
